@@ -37,11 +37,11 @@ ATTEMPTS_Q = ['absent', 1, 3, 0]
 
 
 def credit_options(tier):
-    opts = [('none', None), ('linear', LinearCredit()), ('geometric', GeometricCredit(factor=0.5)), ('const1', lambda n: 1),
+    opts = [('none', None), ('linear', LinearCredit()), ('geometric', GeometricCredit(factor=0.5)),
             ('const0', lambda n: 0), ('third', lambda n: 0.33333)]
     if tier == 'thorough':
-        opts += [('reciprocal', ReciprocalCredit()), ('linear_min', LinearCredit(decrease_credit_after=1, minimum_credit=0.5,
-                                                                                 decrease_credit_steps=2))]
+        opts += [('const1', lambda n: 1), ('reciprocal', ReciprocalCredit()),
+                 ('linear_min', LinearCredit(decrease_credit_after=1, minimum_credit=0.5, decrease_credit_steps=2))]
     return opts
 
 
@@ -165,6 +165,9 @@ def alt_pool(e1, e2, e3):
         ('pinF', {'expect': e2, 'ok': False, 'msg': 'pinned false'}, True),
         ('pinP', {'expect': e1, 'ok': 'partial'}, True),
         ('pinT', {'expect': e3, 'ok': True, 'grade_decimal': 1}, True),
+        # credits that are not 0 / not 1 but round to them at four decimals: ok must still be 'partial'
+        ('tiny', {'expect': e3, 'grade_decimal': 0.00004, 'msg': 'tiny'}, False),
+        ('almost', {'expect': e2, 'grade_decimal': 0.99996}, False),
     ]
 
 
@@ -213,8 +216,8 @@ class ItemGraders(ConfigFamily):
     def __init__(self, kind):
         self.kind = kind
         self.name = 'item_' + kind
-        self.rule = ('%s: every subset of <=3 [quick 2] of 8 alternatives (full / half+msg / 0.3 / zero+msg / tuple expect / '
-                     'ok pinned False, partial, True) x wrong_msg x attempt_based_credit (none, Linear, Geometric, constants 1, 0, '
+        self.rule = ('%s: every subset of <=3 [quick 2] of 10 alternatives (full / half+msg / 0.3 / zero+msg / tuple expect / '
+                     'ok pinned False, partial, True / credit 0.00004 / credit 0.99996) x wrong_msg x attempt_based_credit (none, Linear, Geometric, constants 1, 0, '
                      '0.33333 [+Reciprocal, Linear with minimum]) x credit-message flag x debug; inputs %r; attempts absent,1,2,7,0,-3'
                      % (kind, ITEM_KINDS[kind]['inputs']))
 
